@@ -251,12 +251,35 @@ class Check:
             trace_path, stats = self.run_worker(driver, dargs, out_name="%s.ndjson" % label, race=race)
         if trace_path is None:
             trace_path, stats = self.run_harness(driver, dargs, out_name="%s.ndjson" % label, env=driver_env)
+        stateful = "ChunkSize" not in open(os.path.join(self.specdir, cfg)).read()
+        if not stateful and os.path.getsize(trace_path) > 32 * 1024 * 1024:
+            # TLC's JSON reader needs about 100 times the file size: events are independent, so a big trace is validated in parts
+            parts, cur, size, k = [], None, 0, 0
+            for line in open(trace_path):
+                if cur is None or size + len(line) > 24 * 1024 * 1024:
+                    k += 1
+                    if cur is not None:
+                        cur.close()
+                    parts.append("%s.part%d" % (trace_path, k))
+                    cur = open(parts[-1], "w")
+                    size = 0
+                cur.write(line)
+                size += len(line)
+            cur.close()
+            out = []
+            for k, part in enumerate(parts):
+                out += self.trace("%s.%d" % (label, k + 1), driver, dargs, module, cfg, props, agree=agree, files_extra=files_extra,
+                                  timeout=timeout, nontrivial=nontrivial, key=key, driver_env=driver_env, trace_path=part,
+                                  stats=stats if k == 0 else {}, workers=workers, heap=heap, consts_extra=consts_extra, worker=worker, race=race)
+                os.remove(part)
+                if len(self.violations) >= 3:
+                    break
+            return out
         events = [json.loads(x) for x in open(trace_path)]
         if not events:
             raise ToolError("%s: driver %s produced no events" % (label, driver))
         self._sample(events, nontrivial, key)
         masked = set()
-        stateful = "ChunkSize" not in open(os.path.join(self.specdir, cfg)).read()
 
         def mask(e2):
             if stateful:     # a history is validated as a whole: the event stays, its verdict is waived
